@@ -5,6 +5,7 @@
 # change's meta.json and /verif/seeded/RESULTS.md (entries of changes not run this time are kept).
 TIER=${1:-quick}; JOBS=${2:-3}; shift; shift
 cd /verif
+export VERIF_HARNESS=/var/tmp/harness_snap.$$; rm -rf $VERIF_HARNESS; cp -r /verif/harness $VERIF_HARNESS; trap "rm -rf $VERIF_HARNESS" EXIT
 R=/var/tmp/seedpar; mkdir -p $R
 if [ $# -gt 0 ]; then IDS="$*"; else IDS=$(ls -d /verif/seeded/C??-? | xargs -n1 basename); fi
 one() {
